@@ -163,6 +163,28 @@ pub fn guarded<T>(f: impl FnOnce() -> T + std::panic::UnwindSafe) -> Option<T> {
     std::panic::catch_unwind(f).ok()
 }
 
+/// A logger that formats every record at every level and throws the text away: `glonaxd --daemon` runs at Debug,
+/// so a panic inside a `Display` used only by a log line is a crash of the real daemon too.
+struct FormatEverything;
+impl log::Log for FormatEverything {
+    fn enabled(&self, _: &log::Metadata) -> bool {
+        true
+    }
+    fn log(&self, record: &log::Record) {
+        use std::fmt::Write;
+        let mut sink = String::new();
+        let _ = write!(sink, "{}", record.args());
+        std::hint::black_box(&sink);
+    }
+    fn flush(&self) {}
+}
+
+pub fn log_everything() {
+    static L: FormatEverything = FormatEverything;
+    let _ = log::set_logger(&L);
+    log::set_max_level(log::LevelFilter::Trace);
+}
+
 pub fn silence_panics() {
     std::panic::set_hook(Box::new(|_| {}));
 }
